@@ -113,6 +113,17 @@ def check_case(ctx, case):
                              ('float', float(o), v)]:
             if got != exp:
                 probs.append(('violation', 'view-' + nm, '%r vs %r' % (got, exp)))
+        # observable against observable: exactly the central values, also for pairs that `==` regards as equal
+        # (difference below its absolute tolerance) and for observables of tiny magnitude
+        pairs = [(o, make_obs(w, 2 * d)), (o, o + (w - v)), (o, o + 3e-11), (o + 3e-11, o), (o, o - 1e-13)]
+        tiny = make_obs(v * 1e-12 / max(abs(v), 1e-300), d * 1e-12 / max(abs(v), d, 1e-300))
+        pairs += [(tiny, tiny * 0.5), (tiny * 0.5, tiny)]
+        import operator
+        for a_, b_ in pairs:
+            for nm, op in (('lt', operator.lt), ('le', operator.le), ('gt', operator.gt), ('ge', operator.ge)):
+                got, exp = op(a_, b_), op(a_.value, b_.value)
+                if bool(got) != bool(exp):
+                    probs.append(('violation', 'view-obs-' + nm, 'values %r, %r: %r' % (a_.value, b_.value, got)))
         for n in (1, 2, 3, 5):
             exp = (abs(v) <= n * d) or (abs(v) <= 1e-10 and False)
             got = o.is_zero_within_error(n)
